@@ -25,7 +25,7 @@ NO_GRADIENT = {"nelder-mead", "powell", "cobyla", "differential_evolution"}
 class OrderCase(Case):
     family = "request-order"
 
-    def __init__(self, cid, *, method, speculative=False, split=False, nkinds=(), lkinds=(), L=3, N=2, npts=2, batch=0):
+    def __init__(self, cid, *, method, speculative=False, split=False, nkinds=(), lkinds=(), L=3, N=2, npts=2, batch=0, restart=False):
         self.id = cid
         self.method, self.speculative, self.split = method, speculative, split
         self.nkinds, self.lkinds, self.L, self.N, self.npts, self.batch = tuple(nkinds), tuple(lkinds), L, N, npts, batch
@@ -56,7 +56,8 @@ class OrderCase(Case):
                     if kind in ("upper", "both"):
                         self.rows.append((src, k, -1, "hi", "ineq"))
         # callables: fun, jac (gradient methods), per row fun (+ jac unless cobyla / gradient-free)
-        self.callables = ["fun"] + ([] if self.gradfree else ["jac"])
+        self.restart = restart
+        self.callables = ["fun"] + ([] if self.gradfree else ["jac"]) + (["restart"] if restart else [])
         self.base = base
         if base == "differential_evolution":
             if self.nkinds:
@@ -85,10 +86,13 @@ class OrderCase(Case):
                         sep.append(Or(d > lim, -d > lim))
                 env.assume(Or(*sep))
         nC = len(self.nkinds)
-        F = env.reals("F", (npts, B), lo=-BIG, hi=BIG)
-        G = env.reals("G", (npts, B, nC), lo=-BIG, hi=BIG)
-        dF = env.reals("dF", (npts, N), lo=-BIG, hi=BIG)
-        dG = env.reals("dG", (npts, nC, N), lo=-BIG, hi=BIG)
+        # one value table per epoch: a restart of the same optimizer object (e.g. with other fixed variables)
+        # starts a new epoch in which every point has new ensemble values
+        E = 2 if self.restart else 1
+        F = env.reals("F", (E, npts, B), lo=-BIG, hi=BIG)
+        G = env.reals("G", (E, npts, B, nC), lo=-BIG, hi=BIG)
+        dF = env.reals("dF", (E, npts, N), lo=-BIG, hi=BIG)
+        dG = env.reals("dG", (E, npts, nC, N), lo=-BIG, hi=BIG)
         nlo, nhi = self._bounds(env, "nb", self.nkinds)
         llo, lhi = self._bounds(env, "lb", self.lkinds)
         A = env.reals("A", (len(self.lkinds), N), lo=-5, hi=5)
@@ -143,6 +147,7 @@ class OrderCase(Case):
                    lower_bounds=env.arr(obj(inp["llo"]), False), upper_bounds=env.arr(obj(inp["lhi"]), False))
         rec, log = {}, []
         B = max(1, self.batch)
+        epoch = [0]
 
         class Rec:
             def __init__(self, *a, **kw):
@@ -150,15 +155,15 @@ class OrderCase(Case):
 
         def callback(variables, *, return_functions, return_gradients):
             i = self.which_point(env, inp, variables)
-            log.append({"point": i, "f": return_functions, "g": return_gradients, "shape": np.shape(vals(variables))})
+            log.append({"point": i, "f": return_functions, "g": return_gradients, "shape": np.shape(vals(variables)), "epoch": epoch[0]})
             if i is None:
                 raise RuntimeError("harness: the plug-in evaluated a point outside the pool")
             f = g = np.array([])
             if return_functions:
-                rows = [[inp["F"][i, b]] + list(inp["G"][i, b]) for b in range(B)]
+                rows = [[inp["F"][epoch[0], i, b]] + list(inp["G"][epoch[0], i, b]) for b in range(B)]
                 f = env.arr(np.array(rows if self.batch else rows[0], dtype=object))
             if return_gradients:
-                g = env.arr(np.array([list(inp["dF"][i])] + [list(r) for r in inp["dG"][i]], dtype=object))
+                g = env.arr(np.array([list(inp["dF"][epoch[0], i])] + [list(r) for r in inp["dG"][epoch[0], i]], dtype=object))
             return f, g
 
         def fake_minimize(**kw):
@@ -192,28 +197,36 @@ class OrderCase(Case):
                 code = int(inp["req"][t])
                 ci, pi = divmod(code, self.npts)
                 name = self.callables[ci]
+                if name == "restart":
+                    # the same optimizer object is started again from pool point pi (ropt does this for every run
+                    # of an EnsembleOptimizer); the ensemble behind the callback has changed meanwhile
+                    epoch[0] = min(epoch[0] + 1, 1)
+                    p = inp["pts"][pi]
+                    opt.start(env.arr(p[0]))
+                    out["steps"].append((name, pi, "restarted", len(log), epoch[0]))
+                    continue
                 fn = table.get(name)
                 if fn is None:
-                    out["steps"].append((name, pi, "missing", len(log)))
+                    out["steps"].append((name, pi, "missing", len(log), epoch[0]))
                     continue
                 p = inp["pts"][pi]
                 arg = env.arr(p.T if self.batch else p[0])  # vectorized DE hands (N, B) matrices
                 n0 = len(log)
                 ret = fn(arg)
-                out["steps"].append((name, pi, ret, n0))
+                out["steps"].append((name, pi, ret, n0, epoch[0]))
             return out
         finally:
             S.minimize, S.differential_evolution, S.Bounds, S.LinearConstraint, S.NonlinearConstraint = old
 
     # ---- expected values
-    def raw(self, inp, src, k, pi, b=0):
+    def raw(self, inp, src, k, pi, b=0, ep=0):
         if src == "n":
-            return inp["G"][pi, b, k]
+            return inp["G"][ep, pi, b, k]
         return ssum([inp["A"][k, j] * inp["pts"][pi, b, j] for j in range(self.N)])
 
-    def raw_row(self, inp, src, k, pi):
+    def raw_row(self, inp, src, k, pi, ep=0):
         if src == "n":
-            return list(inp["dG"][pi, k])
+            return list(inp["dG"][ep, pi, k])
         return list(inp["A"][k])
 
     def props(self, env, inp, oc):
@@ -224,36 +237,37 @@ class OrderCase(Case):
         if self.base != "differential_evolution":
             props.append(("constraint_rows_as_configured", SB(out["types"] == [r[4] for r in self.rows])))
         B = max(1, self.batch)
-        for t, (name, pi, ret, n0) in enumerate(out["steps"]):
+        for t, (name, pi, ret, n0, ep) in enumerate(out["steps"]):
             tag = f"step{t}"
             if isinstance(ret, str):
-                props.append((f"{tag}.callable_exists", SB(False)))
+                if ret != "restarted":
+                    props.append((f"{tag}.callable_exists", SB(False)))
                 continue
             rv = np.asarray(vals(ret), dtype=object)
             if name == "fun":
-                exp = [inp["F"][pi, b] for b in range(B)]
+                exp = [inp["F"][ep, pi, b] for b in range(B)]
                 got = list(rv.ravel())
                 props.append((f"{tag}.objective_is_value_at_requested_point", SB(len(got) == len(exp)) if len(got) != len(exp) else
                               all_of(exact(g, e) for g, e in zip(got, exp))))
             elif name == "jac":
-                exp = list(inp["dF"][pi])
+                exp = list(inp["dF"][ep, pi])
                 got = list(rv.ravel())
                 props.append((f"{tag}.gradient_is_value_at_requested_point", SB(len(got) == len(exp)) if len(got) != len(exp) else
                               all_of(exact(g, e) for g, e in zip(got, exp))))
             elif name[0] == "nlfun":
-                exp = [inp["G"][pi, b, k] for k in range(len(self.nkinds)) for b in range(B)]
+                exp = [inp["G"][ep, pi, b, k] for k in range(len(self.nkinds)) for b in range(B)]
                 got = list(rv.ravel())
                 props.append((f"{tag}.constraints_are_values_at_requested_point", SB(len(got) == len(exp)) if len(got) != len(exp) else
                               all_of(exact(g, e) for g, e in zip(got, exp))))
             elif name[0] == "cfun":
                 src, k, sgn, which, _ = self.rows[name[1]]
                 rhs = (inp["nlo"] if src == "n" else inp["llo"])[k] if which == "lo" else (inp["nhi"] if src == "n" else inp["lhi"])[k]
-                exp = (self.raw(inp, src, k, pi) - rhs) * sgn
+                exp = (self.raw(inp, src, k, pi, ep=ep) - rhs) * sgn
                 got = list(rv.ravel())
                 props.append((f"{tag}.constraint_is_value_at_requested_point", SB(len(got) == 1) if len(got) != 1 else close(got[0], exp)))
             else:
                 src, k, sgn, which, _ = self.rows[name[1]]
-                exp = [x * sgn for x in self.raw_row(inp, src, k, pi)]
+                exp = [x * sgn for x in self.raw_row(inp, src, k, pi, ep=ep)]
                 got = list(rv.ravel())
                 props.append((f"{tag}.constraint_jacobian_is_value_at_requested_point", SB(len(got) == len(exp)) if len(got) != len(exp) else
                               all_of(close(g, e) for g, e in zip(got, exp))))
@@ -267,13 +281,13 @@ class OrderCase(Case):
         # nothing is evaluated twice for the current point
         ok = True
         cur, seen_f, seen_g = None, False, False
-        step_pts = [(pi, n0) for (_, pi, _, n0) in out["steps"]]
+        step_pts = [((pi, ep) if nm != "restart" else ("restart", t), n0) for t, (nm, pi, _, n0, ep) in enumerate(out["steps"])]
         bounds = [n0 for _, n0 in step_pts] + [len(log)]
         for t, (pi, n0) in enumerate(step_pts):
             if pi != cur:
                 cur, seen_f, seen_g = pi, False, False
             for e in log[bounds[t]:bounds[t + 1]]:
-                if (e["f"] and seen_f) or (e["g"] and seen_g) or e["point"] != pi:
+                if (e["f"] and seen_f) or (e["g"] and seen_g) or (isinstance(pi[0], int) and e["point"] != pi[0]):
                     ok = False
                 seen_f |= e["f"]
                 seen_g |= e["g"]
@@ -310,6 +324,9 @@ def build_cases(tier):
     add(method="scipy/Powell", speculative=True, split=True, L=2)
     add(method="slsqp", speculative=True, nkinds=("eq",), lkinds=("lower",), L=3)
     add(method="l-bfgs-b", split=True, L=3, npts=3)
+    add(method="slsqp", L=3, restart=True)                         # the same optimizer object is started twice
+    add(method="slsqp", nkinds=("lower",), L=3, restart=True, speculative=True)
+    add(method="nelder-mead", L=3, restart=True)
     add(method="differential_evolution", nkinds=("lower",), L=3)
     add(method="differential_evolution", nkinds=("both",), L=3, batch=2, speculative=True)
     add(method="differential_evolution", L=3, batch=2)
